@@ -11,6 +11,6 @@ bash MUTANT/demo.sh > /tmp/seed_demo_without.log 2>&1; echo "== demo without cha
 git apply /tmp/seed_patch.diff
 make -s > /dev/null 2>&1
 cd /verif
-VERIF_REPO=$wt python3 vp/run.py $pid --no-evidence --max-replays 4 > /tmp/seed_check_$pid.log 2>&1; echo "== check exit $?"
+VERIF_REPO=$wt python3 vp/run.py $pid --no-evidence --max-replays 4 --jobs ${SEEDJOBS:-16} > /tmp/seed_check_$pid.log 2>&1; echo "== check exit $?"
 grep "^VIOLATION\|obligation=" /tmp/seed_check_$pid.log | head -6 | cut -c1-260
 tail -1 /tmp/seed_check_$pid.log
